@@ -14,6 +14,10 @@ def spec(tier):
                 sym["d2"] = I(1, 2)
                 fixed.pop("d2")
             obs.append(CH(name=f"protocol_n{n}_ram{lo}", harness="c10.suspend_protocol", sym=sym, fixed=fixed, timeout=600))
+    # the same protocol at 2 and 4 ticks per second (write-out = floor(ram*tps/20) ticks)
+    for tp in (2, 4):
+        obs.append(CH(name=f"protocol_n2_tps{tp}", harness="c10.suspend_protocol", sym=dict(ram=I(1, 45), s=I(0, 6), d0=I(1, 2), d1=I(1, 2)),
+                      fixed=dict(n=2, s2=-1, dB=3, rB=7, K=16, d2=1, tps=tp), timeout=900))
     # second request / bystander timing
     obs.append(CH(name="second_request", harness="c10.suspend_protocol",
                   sym=dict(s=I(0, 5), s2=I(0, 8), ram=I(1, 45)), fixed=dict(n=3, d0=1, d1=2, d2=1, dB=3, rB=7, K=K), timeout=600))
@@ -35,7 +39,7 @@ def spec(tier):
         functions=["Container.suspend_container", "Container.suspend_container_tick", "Container.is_suspended", "Container.can_suspend_container",
                    "Container._tick_generator", "ResourcePool.verify_valid_suspend", "ResourcePool.get_container_by_id", "ResourcePool.run_one_tick",
                    "Assignment.__init__"],
-        bounds={"operators": "1..3", "durations": "1..2 ticks", "allocation_gb": "1..79", "request_tick": "0..6 (second request 0..8)", "tick_rate": "1 (scenario); 1..100000 (kernel)"},
+        bounds={"operators": "1..3", "durations": "1..2 ticks", "allocation_gb": "1..79", "request_tick": "0..6 (second request 0..8)", "tick_rate": "1, 2, 4 (scenario); 1..100000 (kernel)"},
         outside=["containers with more than 3 operators", "tick rates other than 1 in the protocol harness (the write-out length for every rate is the kernel obligation)"],
         assumptions=A_ASSUME + ["M10 RLX error model for the kernel"],
         explanation=("CrossHair+z3 over the real pool/container: a Suspend for a container is requested at a symbolic tick of its life (before creation, mid-operator, at each boundary, "
